@@ -8,7 +8,7 @@ VERSION = {'none': None, 'int': 5, 'str_int': '5', 'micro_upper': 'M4', 'micro_l
 VERSION_CANON = {'str_int': 5, 'micro_lower': 'M4'}
 ERROR = {'none': None, 'M': 'M', 'm': 'm', 'H': 'H', 'h': 'h', 'bad': 'x', 'empty': ''}
 MODE = {'none': None, 'canon': 'byte', 'upper': 'BYTE', 'mixed': 'Byte', 'bad': 'foo'}
-MASK = {'none': None, 'int': 2, 'str_int': '2', 'four': 4, 'eight': 8, 'neg': -1, 'str_bad': 'x'}
+MASK = {'none': None, 'int': 2, 'str_int': '2', 'four': 4, 'eight': 8, 'neg': -1, 'str_bad': 'x', 'zero': 0, 'str_zero': '0', 'str_seven': '7'}
 ENC = {'none': None, 'utf8': 'utf-8', 'utf8_upper': 'UTF-8', 'latin1': 'iso-8859-1', 'unknown': 'no-such-codec'}
 CONTENT = {'digits': '12345', 'alnum': 'AB C1', 'text': 'Hello', 'bytes': b'\x00\xffab', 'int': 12345, 'empty': '', 'long': 'x' * 40}
 
@@ -28,7 +28,7 @@ def concretise(a, canonical=False):
         kw['mode'] = m.lower() if canonical else m
     k = MASK[a['mask']]
     if k is not None:
-        kw['mask'] = int(k) if canonical and a['mask'] == 'str_int' else k
+        kw['mask'] = int(k) if canonical and a['mask'] in ('str_int', 'str_zero', 'str_seven') else k
     if a['micro'] != 'none':
         kw['micro'] = a['micro'] == 'yes'
     if a['eci']:
